@@ -1,8 +1,9 @@
-"""Queue.tla (C10): design-level model check and transition-coverage replay into the real session queue.
+"""Queue.tla (C10): design-level model check and transition-coverage replay into the real session queue
+(memory back-end, or redis back-end over the in-process RESP fake).
 
   design_check(ctx, cfg)   TLC on Queue.tla with the fate/FIFO bookkeeping in the view, all invariants and step properties
-  run_pack(ctx, cfg)       TLC enumerates every (state, operation) pair; harness/cmd/queuemem replays each on a fresh mem.New
-  cfg = dict(name, menu=[(qos, exp, big)…], max, ie, nmsg, ids, rdmax, rins)
+  run_pack(ctx, cfg)       TLC enumerates every (state, operation) pair; harness/cmd/queuemem replays each on a fresh mem.New / redis.New
+  cfg = dict(name, menu=[(qos, exp, big)…], max, ie, nmsg, ids, rdmax, rins [, target=mem|redis, reinit=new|same, rule1=front|any])
 """
 import json, os, threading
 import vlib
@@ -47,6 +48,7 @@ def mc_body(cfg):
 def cfg_text(cfg, design):
     lines = ["SPECIFICATION Spec", "CONSTANTS",
              " Max = %d" % cfg["max"], " IE = %s" % tla_str(cfg["ie"]), " Rule1 = %s" % tla_str(cfg.get("rule1", "front")),
+             " Offline = %s" % tla_str("addonly" if cfg.get("reinit") == "restart" else "all"),
              " Menu <- mc_Menu", " NMsg = %d" % cfg["nmsg"],
              " Ids <- mc_Ids", " RdMax = %d" % cfg["rdmax"], " RINs <- mc_RINs", " ProbeN = %d" % PROBE_N,
              " ProbeIds <- mc_ProbeIds", "CONSTRAINT Bound"]
@@ -64,7 +66,10 @@ def cfg_text(cfg, design):
 
 
 def cfg_name(cfg):
-    return "%s_max%d_%s_n%d" % (cfg["name"], cfg["max"], cfg["ie"], cfg["nmsg"])
+    t = cfg.get("target", "mem")
+    pre = "" if t == "mem" else "%s%s_" % (t, {"new": "", "same": "_sameobj", "restart": "_restart"}[cfg.get("reinit", "new")])
+    suf = "_r1any" if t == "mem" and cfg.get("rule1", "front") == "any" else ""
+    return "%s%s_max%d_%s_n%d%s" % (pre, cfg["name"], cfg["max"], cfg["ie"], cfg["nmsg"], suf)
 
 
 def design_check(ctx, cfg, workers=8, timeout=1500):
@@ -87,7 +92,7 @@ def run_pack(ctx, cfg, workers=8, timeout=1500):
     """every transition of the model replayed on a fresh real queue; returns (summary, divergences, pack record)"""
     bindir = ctx.go_build(["./cmd/queuemem"])
     cmd = [os.path.join(bindir, "queuemem"), "-max", str(cfg["max"]), "-ie", cfg["ie"], "-proben", str(PROBE_N),
-           "-probeids", str(len(PROBE_IDS))]
+           "-probeids", str(len(PROBE_IDS)), "-target", cfg.get("target", "mem"), "-reinit", cfg.get("reinit", "new")]
     res, out, rc = ctx.tlc_piped("Queue", mc_body(cfg), cfg_text(cfg, False), cmd, name="Queue_" + cfg_name(cfg),
                                  workers=workers, timeout=timeout, count=False)
     if res.violation:
@@ -109,7 +114,9 @@ def run_pack(ctx, cfg, workers=8, timeout=1500):
     # every emitted transition must have been consumed (the initial state is the one generated state that is no transition)
     if summary["n"] != res.generated - 1:
         raise vlib.MachineryError("replayer consumed %d transitions, TLC generated %d" % (summary["n"], res.generated - 1))
-    if summary.get("timing_unconfirmed", 0) > 20:
+    # a watchdog firing that the slow re-execution did not confirm is harmless by itself (the re-execution is the result);
+    # many of them mean the machine is too loaded for the absence-type observations of this run to be trusted
+    if summary.get("timing_unconfirmed", 0) > max(50, summary["n"] // 200):
         raise vlib.MachineryError("%d watchdog firings were not confirmed by the slow re-execution: machine too loaded" %
                                   summary["timing_unconfirmed"])
     ops = {k[3:]: v for k, v in summary["counters"].items() if k.startswith("op:")}
@@ -118,7 +125,8 @@ def run_pack(ctx, cfg, workers=8, timeout=1500):
            "transitions_replayed": summary["n"], "compared_per_operation": ops,
            "skipped_prefix_already_diverged": summary.get("tainted_prefix", 0),
            "watchdog_retries": summary.get("watchdog_retries", 0), "timing_unconfirmed": summary.get("timing_unconfirmed", 0),
-           "divergent_transitions": summary["divergences"], "wall_s": round(res.wall, 1), "target": "mem"}
+           "divergent_transitions": summary["divergences"], "wall_s": round(res.wall, 1), "target": cfg.get("target", "mem"),
+           "ladder_rule1": cfg.get("rule1", "front"), "reinit": cfg.get("reinit", "new") if cfg.get("target") == "redis" else None}
     with _lock:
         ctx.cov["states"] += res.distinct
         ctx.cov["transitions"] += res.generated
